@@ -395,4 +395,259 @@ Section Proofs.
     destruct (count_close h (w_trace B w)) as [|[|k]] eqn:E; try lia.
     exfalso. destruct HL as [HL _]. destruct (HL eq_refl) as [i Hi]. eapply Hq; eauto.
   Qed.
+
+  (* ------------------------------------------------------------------ refinement of the specification *)
+  Notation sworld := (sworld B).
+  Notation absW := (abs B).
+  Definition sw_equiv (a b : sworld) : Prop :=
+    sw_fs B a = sw_fs B b /\ (forall i, sw_objs B a i = sw_objs B b i) /\ sw_stack B a = sw_stack B b.
+
+  (* one File changes; the streams of the other Files are untouched *)
+  Lemma abs_frame : forall (w w1 : world) (a : sworld) i so fs1 st1,
+    sw_equiv a (absW w) ->
+    (forall j, j <> i -> w_objs B w1 j = w_objs B w j) ->
+    (forall j h', j <> i -> holds w j h' -> w_files B w1 h' = w_files B w h') ->
+    abs_obj B w1 (w_objs B w1 i) = so ->
+    w_fs B w1 = fs1 -> w_stack B w1 = st1 ->
+    sw_equiv (mkSW B fs1 (upd (sw_objs B a) i so) st1) (absW w1).
+  Proof.
+    intros w w1 a i so fs1 st1 (Hfs & Hob & Hst) Hoth Hfiles Hi Hf Hs.
+    unfold sw_equiv, abs; simpl. split; [auto|]. split; [|auto].
+    intros j. unfold upd. destruct (Nat.eqb_spec j i) as [->|Hne]; [auto|].
+    rewrite Hob. simpl. rewrite (Hoth j Hne).
+    destruct (w_objs B w j) as [|[h'|]] eqn:Ej; simpl; auto.
+    rewrite (Hfiles j h' Hne Ej). auto.
+  Qed.
+
+  Lemma equiv_obj : forall (a : sworld) (w : world) i,
+    sw_equiv a (absW w) -> sw_objs B a i = abs_obj B w (w_objs B w i).
+  Proof. intros a w i (_ & H & _). rewrite H. reflexivity. Qed.
+  Lemma equiv_fs : forall (a : sworld) (w : world), sw_equiv a (absW w) -> sw_fs B a = w_fs B w.
+  Proof. intros a w (H & _ & _). rewrite H. reflexivity. Qed.
+  Lemma equiv_stack : forall (a : sworld) (w : world), sw_equiv a (absW w) -> sw_stack B a = w_stack B w.
+  Proof. intros a w (_ & _ & H). rewrite H. reflexivity. Qed.
+
+  (* File_Close of an open File against the specification's close *)
+  Lemma close_refines : forall (w : world) (a : sworld) i h,
+    inv w -> sw_equiv a (absW w) -> holds w i h ->
+    let (w1, o1) := closeF w i (Some h) in
+    let (a1, o1') := s_close B close_fails a i (SOpen (f_st (w_files B w h))) in
+    o1' = o1 /\ sw_equiv a1 (absW w1).
+  Proof.
+    intros w a i h Hinv Heq Hh.
+    pose proof (close_some w i h Hinv Hh) as Hc.
+    destruct (inv_live _ Hinv _ _ Hh) as [Hlt Hcl].
+    unfold file_close, live in *. unfold closes in Hcl. rewrite Hcl in *. simpl Nat.eqb in *. cbv iota in *.
+    unfold s_close.
+    destruct (close_fails (s_path (f_st (w_files B w h))) && (0 <? s_pos (f_st (w_files B w h))));
+      destruct Hc as (_ & Hn & _ & Hoth & Hst & Hfs & _ & Hfl); (split; [reflexivity|]);
+      unfold s_set; rewrite <- (equiv_fs _ _ Heq) in Hfs; rewrite <- (equiv_stack _ _ Heq) in Hst;
+      (eapply abs_frame; eauto; [intros j h' Hj Hh'; apply Hfl; intros ->; apply Hj; eapply inv_inj; eauto
+                                | rewrite Hn; reflexivity]).
+  Qed.
+
+  Lemma open_none_refines : forall (w : world) (a : sworld) i p m,
+    inv w -> sw_equiv a (absW w) -> w_objs B w i = FObj None ->
+    let (w1, o1) := openF w i None p m in
+    let (a1, o1') := s_open B creatable a i p m in
+    o1' = o1 /\ sw_equiv a1 (absW w1).
+  Proof.
+    intros w a i p m Hinv Heq Hi. unfold file_open, s_open. rewrite (equiv_fs _ _ Heq).
+    destruct (fopen B creatable (w_fs B w) p m) as [[fs' st]|].
+    - split; [reflexivity|]. rewrite (equiv_stack _ _ Heq).
+      eapply abs_frame; eauto; simpl.
+      + intros j Hj. unfold upd. destruct (Nat.eqb_spec j i); [contradiction|auto].
+      + intros j h' Hj Hh'. unfold upd. destruct (Nat.eqb_spec h' (w_nfiles B w)); [|auto].
+        destruct (inv_live _ Hinv _ _ Hh'). lia.
+      + unfold upd. rewrite Nat.eqb_refl. simpl. rewrite Nat.eqb_refl. reflexivity.
+    - split; [reflexivity|]. unfold s_set. rewrite (equiv_stack _ _ Heq).
+      eapply abs_frame; eauto; simpl.
+      + intros j Hj. unfold upd. destruct (Nat.eqb_spec j i); [contradiction|auto].
+      + unfold upd. rewrite Nat.eqb_refl. reflexivity.
+      + symmetry. apply equiv_fs; auto.
+  Qed.
+
+  Lemma open_refines : forall (w : world) (a : sworld) i ho p m,
+    inv w -> sw_equiv a (absW w) -> w_objs B w i = FObj ho ->
+    let (w1, o1) := openF w i ho p m in
+    let (a1, o1') := s_reopen B creatable close_fails a i p m in
+    o1' = o1 /\ sw_equiv a1 (absW w1).
+  Proof.
+    intros w a i ho p m Hinv Heq Hi. unfold s_reopen. rewrite (equiv_obj _ _ i Heq), Hi.
+    destruct ho as [h|]; simpl abs_obj; cbv iota.
+    - pose proof (close_refines w a i h Hinv Heq Hi) as Hr.
+      pose proof (close_some w i h Hinv Hi) as Hc.
+      unfold file_open.
+      destruct (closeF w i (Some h)) as [w1 o1].
+      destruct (s_close B close_fails a i (SOpen (f_st (w_files B w h)))) as [a1 o1'].
+      destruct Hr as [-> Heq1]. destruct Hc as (Hinv1 & Hn & [-> | ->] & _).
+      + pose proof (open_none_refines w1 a1 i p m Hinv1 Heq1 Hn) as Ho.
+        unfold file_open in Ho. exact Ho.
+      + split; auto.
+    - apply open_none_refines; auto.
+  Qed.
+
+  Lemma on_open_refines : forall (w : world) (a : sworld) i
+      (k : nat -> stream -> world * out) (ks : stream -> sworld * out),
+    inv w -> sw_equiv a (absW w) ->
+    (forall h, holds w i h ->
+       let (w1, o1) := k h (f_st (w_files B w h)) in
+       let (a1, o1') := ks (f_st (w_files B w h)) in o1' = o1 /\ sw_equiv a1 (absW w1)) ->
+    let (w1, o1) := on_open B w i k in
+    let (a1, o1') := s_on_open B a i ks in o1' = o1 /\ sw_equiv a1 (absW w1).
+  Proof.
+    intros w a i k ks Hinv Heq Hk. unfold on_open, s_on_open. rewrite (equiv_obj _ _ i Heq).
+    destruct (w_objs B w i) as [|[h|]] eqn:Hi; simpl abs_obj; cbv iota.
+    - split; auto.
+    - destruct (inv_live _ Hinv _ _ Hi) as [_ Hc]. unfold live. unfold closes in Hc. rewrite Hc. simpl.
+      apply Hk. exact Hi.
+    - split; auto.
+  Qed.
+
+  (* the stream of File i moves on (and perhaps its file changes) *)
+  Lemma stream_refines : forall (w : world) (a : sworld) i h s' fs1,
+    inv w -> sw_equiv a (absW w) -> holds w i h ->
+    sw_equiv (mkSW B fs1 (upd (sw_objs B a) i (SOpen s')) (sw_stack B a))
+             (absW (set_fs B (set_stream B w h s') fs1)).
+  Proof.
+    intros w a i h s' fs1 Hinv Heq Hh.
+    eapply abs_frame; eauto; simpl.
+    - intros j h' Hj Hh'. unfold upd. destruct (Nat.eqb_spec h' h) as [->|]; [|auto].
+      exfalso. apply Hj. eapply inv_inj; eauto.
+    - unfold holds in Hh. rewrite Hh. simpl. unfold upd. rewrite Nat.eqb_refl. reflexivity.
+    - symmetry. apply equiv_stack; auto.
+  Qed.
+
+  Lemma stream_refines' : forall (w : world) (a : sworld) i h s',
+    inv w -> sw_equiv a (absW w) -> holds w i h ->
+    sw_equiv (s_set B a i (SOpen s')) (absW (set_stream B w h s')).
+  Proof.
+    intros w a i h s' Hinv Heq Hh. unfold s_set.
+    pose proof (stream_refines w a i h s' (sw_fs B a) Hinv Heq Hh) as H.
+    destruct H as (H1 & H2 & H3). split; [|split]; auto.
+    simpl. apply equiv_fs; auto.
+  Qed.
+
+  Lemma equiv_set_obj : forall (w : world) (a : sworld) i o so,
+    sw_equiv a (absW w) -> handle_free o -> abs_obj B w o = so ->
+    sw_equiv (s_set B a i so) (absW (set_obj B w i o)).
+  Proof.
+    intros w a i o so Heq Hf Ho. unfold s_set.
+    eapply abs_frame; eauto; simpl.
+    - intros j Hj. unfold upd. destruct (Nat.eqb_spec j i); [contradiction|auto].
+    - unfold upd. rewrite Nat.eqb_refl. destruct o as [|[h|]]; simpl in *; auto.
+    - symmetry; apply equiv_fs; auto.
+    - symmetry; apply equiv_stack; auto.
+  Qed.
+
+  Lemma step_refines : forall (w : world) (a : sworld) o,
+    inv w -> sw_equiv a (absW w) ->
+    let (w1, o1) := stepF w o in
+    let (a1, o1') := sstep a o in o1' = o1 /\ sw_equiv a1 (absW w1).
+  Proof.
+    intros w a o Hinv Heq. destruct o; cbn [step spec_step].
+    - (* ONew *)
+      rewrite (equiv_obj _ _ i Heq).
+      destruct (w_objs B w i) as [|[h|]] eqn:Hi; simpl abs_obj; cbv iota; (split; [reflexivity|]); auto.
+      apply equiv_set_obj; auto.
+    - (* ONewOpen *)
+      rewrite (equiv_obj _ _ i Heq).
+      destruct (w_objs B w i) as [|[h|]] eqn:Hi; simpl abs_obj; cbv iota; try (split; [reflexivity|auto]).
+      assert (Hinv' : inv (set_obj B w i (FObj None))) by (apply inv_set_obj_free; auto; rewrite Hi; auto).
+      assert (Heq' : sw_equiv (s_set B a i SClosed) (absW (set_obj B w i (FObj None)))) by (apply equiv_set_obj; auto).
+      assert (Hi' : w_objs B (set_obj B w i (FObj None)) i = FObj None) by (simpl; unfold upd; rewrite Nat.eqb_refl; auto).
+      pose proof (open_none_refines _ _ i p m Hinv' Heq' Hi') as Hr.
+      pose proof (open_inv _ i None p m Hinv' Hi') as Ho.
+      destruct (openF (set_obj B w i (FObj None)) i None p m) as [w1 o1].
+      destruct (s_open B creatable (s_set B a i SClosed) i p m) as [a1 o1'].
+      destruct Hr as [-> Heq1]. destruct Ho as (Hinv1 & [[-> _] | [-> Hn]] & _).
+      + split; auto.
+      + split; auto. apply equiv_set_obj; auto.
+    - (* OOpen *)
+      destruct (w_objs B w i) as [|ho] eqn:Hi.
+      + unfold s_reopen. rewrite (equiv_obj _ _ i Heq), Hi. simpl. split; auto.
+      + apply open_refines; auto.
+    - (* OClose *)
+      rewrite (equiv_obj _ _ i Heq).
+      destruct (w_objs B w i) as [|[h|]] eqn:Hi; simpl abs_obj.
+      + simpl. split; auto.
+      + apply close_refines; auto.
+      + simpl. split; auto.
+    - (* ODel *)
+      rewrite (equiv_stack _ _ Heq).
+      destruct (existsb (Nat.eqb i) (w_stack B w)); [split; auto|].
+      rewrite (equiv_obj _ _ i Heq).
+      destruct (w_objs B w i) as [|[h|]] eqn:Hi; simpl abs_obj; cbv iota.
+      + split; auto.
+      + pose proof (close_refines w a i h Hinv Heq Hi) as Hr.
+        pose proof (close_some w i h Hinv Hi) as Hc.
+        destruct (closeF w i (Some h)) as [w1 o1].
+        destruct (s_close B close_fails a i (SOpen (f_st (w_files B w h)))) as [a1 o1'].
+        destruct Hr as [-> Heq1]. destruct Hc as (Hinv1 & Hn & [-> | ->] & _).
+        * split; auto. apply equiv_set_obj; auto.
+        * split; auto.
+      + split; auto. apply equiv_set_obj; auto.
+    - (* OWith *)
+      rewrite (equiv_obj _ _ i Heq).
+      destruct (w_objs B w i) as [|[h|]] eqn:Hi; simpl abs_obj; cbv iota; (split; [reflexivity|]); auto.
+      all: destruct Heq as (H1 & H2 & H3); split; [|split]; simpl; auto; f_equal; auto.
+    - (* OExit *)
+      rewrite (equiv_stack _ _ Heq).
+      destruct (w_stack B w) as [|i r] eqn:Hs; [split; auto|].
+      assert (Hinv' : inv (set_stack B w r)) by (apply inv_set_stack; auto).
+      assert (Heq' : sw_equiv (mkSW B (sw_fs B a) (sw_objs B a) r) (absW (set_stack B w r))).
+      { destruct Heq as (H1 & H2 & H3); split; [|split]; simpl; auto. }
+      change (w_objs B (set_stack B w r) i) with (w_objs B w i).
+      change (sw_objs B (mkSW B (sw_fs B a) (sw_objs B a) r) i) with (sw_objs B a i).
+      rewrite (equiv_obj _ _ i Heq).
+      destruct (w_objs B w i) as [|[h|]] eqn:Hi; simpl abs_obj.
+      + simpl. split; auto.
+      + apply (close_refines (set_stack B w r) _ i h Hinv' Heq' Hi).
+      + simpl. split; auto.
+    - (* ORead *)
+      apply on_open_refines; auto. intros h Hh. rewrite (equiv_fs _ _ Heq).
+      destruct (fread B (w_fs B w) (f_st (w_files B w h)) n) as [[num data] s'].
+      destruct (negb (num =? 1) && negb (n =? 0) && negb (s_eof s')); (split; [reflexivity|]);
+        apply stream_refines'; auto.
+    - (* OWrite *)
+      apply on_open_refines; auto. intros h Hh. rewrite (equiv_fs _ _ Heq).
+      destruct (fwrite B zero (w_fs B w) (f_st (w_files B w h)) d) as [[num fs'] s'].
+      destruct (negb (num =? 1) && negb (length d =? 0)); (split; [reflexivity|]);
+        apply stream_refines; auto.
+    - (* OSeek *)
+      apply on_open_refines; auto. intros h Hh. rewrite (equiv_fs _ _ Heq).
+      destruct (fseek B (w_fs B w) (f_st (w_files B w h)) off o) as [s'|]; (split; [reflexivity|]); auto.
+      apply stream_refines'; auto.
+    - apply on_open_refines; auto; intros h Hh; split; auto.
+    - apply on_open_refines; auto; intros h Hh; split; auto.
+    - apply on_open_refines; auto; intros h Hh; split; auto.
+    - (* OPrint *)
+      apply on_open_refines; auto. intros h Hh. rewrite (equiv_fs _ _ Heq).
+      destruct (negb (m_write (s_mode (f_st (w_files B w h))))); [split; auto|].
+      destruct (fwrite B zero (w_fs B w) (f_st (w_files B w h)) text) as [[num fs'] s'].
+      split; [reflexivity|]. apply stream_refines; auto.
+    - (* OScan *)
+      apply on_open_refines; auto. intros h Hh. rewrite (equiv_fs _ _ Heq).
+      destruct (negb (m_read (s_mode (f_st (w_files B w h))))); [split; auto|].
+      destruct (scan_rec B is_ws is_digit is_sign _) as [[res used] eof].
+      destruct res as [[num word]|]; (split; [reflexivity|]); apply stream_refines'; auto.
+  Qed.
+
+  Theorem run_refines : forall ops (w : world) (a : sworld),
+    inv w -> sw_equiv a (absW w) ->
+    snd (srun a ops) = snd (runF w ops) /\ sw_equiv (fst (srun a ops)) (absW (fst (runF w ops))).
+  Proof.
+    induction ops as [|o r IH]; intros w a Hinv Heq; simpl.
+    - split; auto.
+    - pose proof (step_refines w a o Hinv Heq) as Hs.
+      pose proof (step_inv w o Hinv) as Hi.
+      destruct (stepF w o) as [w1 o1]. destruct (sstep a o) as [a1 o1'].
+      destruct Hs as [-> Heq1]. destruct Hi as [Hinv1 _].
+      specialize (IH w1 a1 Hinv1 Heq1).
+      destruct (runF w1 r) as [w2 xs]. destruct (srun a1 r) as [a2 xs']. simpl in *.
+      destruct IH as [-> Heq2]. split; auto.
+  Qed.
+
+  Lemma equiv_refl : forall w : world, sw_equiv (absW w) (absW w).
+  Proof. intros w. split; [|split]; auto. Qed.
 End Proofs.
